@@ -294,8 +294,19 @@ func init() {
 		} else if y.len.IsConst() && y.len.C <= 48 {
 			c = ex.bytesEqConcreteLen(x, y, y.len.C)
 		} else {
+			// skolemised: one fresh index k < len (an arbitrary position); constraining the fresh symbol first
+			// lets the memory model prune by the index interval
+			if !ex.Branch(term.Ult(zero64, x.len)) {
+				ex.hits[label]++
+				ex.proved[label]++
+				return nil
+			}
 			k := term.Sym(ex.freshName("sk."+label), 64)
-			c = term.BNot(term.BAnd(term.Ult(k, x.len), term.Ne(x.at(k), y.at(k))))
+			ex.Assume(term.Ult(k, x.len))
+			if _, hi := x.len.Range(); hi > 0 {
+				k.SetRange(0, hi-1)
+			}
+			c = term.Eq(x.at(k), y.at(k))
 		}
 		ex.Assert(c, label)
 		return nil
